@@ -124,6 +124,8 @@ def _prune_cache(keep):
     except OSError:
         return
     ents.sort(key=lambda e: os.path.getmtime(os.path.join(CACHE, e)))
+    import time
+    ents = [e for e in ents if time.time() - os.path.getmtime(os.path.join(CACHE, e)) > 3600]      # never evict what another run may be using
     for e in ents[:-2] if len(ents) > 2 else []:
         subprocess.call(['rm', '-rf', os.path.join(CACHE, e)])
 
